@@ -24,4 +24,26 @@ let coerce_vars (line : string) : string =
        obs ^ " cls=" ^ cls)
   | _ -> failwith "coerce_vars line"
 
-let families = [ ("coerce_vars", coerce_vars) ]
+(* the property's own predicates (C28_domain, C28_conforms) evaluated on a result produced by the IMPLEMENTATION:
+   input: <schema dump> <ast dump> <values json> <result json as printed by the harness>
+   output: ok | bad:domain | bad:conforms:<hex variable name> *)
+let c28_oracle (line : string) : string =
+  match String.split_on_char ' ' line with
+  | [sch; doc; vals; res] ->
+    let s = Lib_run.with_builtin_scalars (Lib_schema.schema_of_string sch) in
+    let d = Lib_ast.document_of_string doc in
+    let obj x = match Lib_json.json_of_string x with JObj m -> m | _ -> failwith "object" in
+    let values = obj vals and r = obj res in
+    (match cv_first_operation d with
+     | None -> "invalid-document"
+     | Some vars ->
+       let expect = List.sort compare (List.map (fun vd -> vd.v_name) (List.filter (cv_var_present values) vars)) in
+       let got = List.sort compare (List.map fst r) in
+       if expect <> got then "bad:domain" else
+       match List.find_opt (fun vd -> match jmap_get vd.v_name r with
+                                      | Some rv -> not (conforms_input s rv vd.v_ty) | None -> false) vars with
+       | Some vd -> "bad:conforms:" ^ Util.hex_of_str vd.v_name
+       | None -> "ok")
+  | _ -> failwith "c28_oracle line"
+
+let families = [ ("coerce_vars", coerce_vars); ("c28_oracle", c28_oracle) ]
